@@ -118,6 +118,7 @@ typedef struct sSymbolEntry {
     TTree      Tree;
     Boolean    Defined, Used, Changeable;
     TempResult SymWert;
+    LargeInt   EnterVal; /* integer value at definition time, before any ChangeSymbol() */
     PCrossRef  RefList;
     Byte       FileNum;
     LongInt    LineNum;
@@ -2074,6 +2075,7 @@ static Boolean SymbolAdder(PTree* PDest, PTree Neu, void* pData) {
         NewEntry->Used       = False;
         NewEntry->Changeable = EnterStruct->MayChange;
         NewEntry->RefList    = NULL;
+        NewEntry->EnterVal   = NewEntry->SymWert.Contents.Int;
         if (EnterStruct->DoCross) {
             NewEntry->FileNum = GetFileNum(CurrFileName);
             NewEntry->LineNum = CurrLine;
@@ -2128,8 +2130,7 @@ static Boolean SymbolAdder(PTree* PDest, PTree Neu, void* pData) {
                     && (NewEntry->SymWert.Contents.Float
                         != (*Node)->SymWert.Contents.Float))
                 || ((NewEntry->SymWert.Typ == TempInt)
-                    && (NewEntry->SymWert.Contents.Int
-                        != (*Node)->SymWert.Contents.Int))) {
+                    && (NewEntry->SymWert.Contents.Int != (*Node)->EnterVal))) {
                 if ((!Repass) && (JmpErrors > 0)) {
                     if (ThrowErrors) {
                         ErrorCount -= JmpErrors;
@@ -2154,6 +2155,7 @@ static Boolean SymbolAdder(PTree* PDest, PTree Neu, void* pData) {
         }
         NewEntry->RefList    = (*Node)->RefList;
         (*Node)->RefList     = NULL;
+        NewEntry->EnterVal   = NewEntry->SymWert.Contents.Int;
         NewEntry->Defined    = True;
         NewEntry->Used       = (*Node)->Used;
         NewEntry->Changeable = EnterStruct->MayChange;
